@@ -1476,6 +1476,15 @@ func (vc *VC) loopHead(fr *Frame, li *loopInfo, st *State, phis []*ssa.Phi, entr
 			}
 		}
 	}
+	for _, ph := range phis {
+		if ph.Comment == "rangeint.iter" {
+			p := fr.env[ph].T
+			vc.assume(head, fmt.Sprintf("(<= 0 %s)", p))
+			if lim := rangeIntLimit(li, ph); lim != nil {
+				vc.assume(head, fmt.Sprintf("(< %s %s)", p, vc.operand(fr, lim).T))
+			}
+		}
+	}
 	// 4. assume invariants
 	locals = vc.loopLocals(fr, li, phis, func(ph *ssa.Phi) Val { return fr.env[ph] }, head)
 	if iv, ok := locals[fmt.Sprintf("$idx%d", li.ord)]; ok {
@@ -1504,6 +1513,29 @@ func rangeLimit(header *ssa.BasicBlock, ph *ssa.Phi) ssa.Value {
 	return nil
 }
 
+// rangeIntLimit finds n of `for range n`: the latch compares iter+1 < n.
+func rangeIntLimit(li *loopInfo, ph *ssa.Phi) ssa.Value {
+	for b := range li.body {
+		for _, in := range b.Instrs {
+			if bo, ok := in.(*ssa.BinOp); ok && bo.Op == token.LSS {
+				if add, ok := bo.X.(*ssa.BinOp); ok && add.Op == token.ADD && add.X == ph {
+					if _, isConst := bo.Y.(*ssa.Const); isConst || bo.Y.Parent() == nil || !li.body[instrBlock(bo.Y)] {
+						return bo.Y
+					}
+				}
+			}
+		}
+	}
+	return nil
+}
+
+func instrBlock(v ssa.Value) *ssa.BasicBlock {
+	if in, ok := v.(ssa.Instruction); ok {
+		return in.Block()
+	}
+	return nil
+}
+
 // loopLocals gives the spec-visible names of loop-carried variables.
 func (vc *VC) loopLocals(fr *Frame, li *loopInfo, phis []*ssa.Phi, val func(*ssa.Phi) Val, st *State) map[string]Val {
 	out := map[string]Val{}
@@ -1511,6 +1543,13 @@ func (vc *VC) loopLocals(fr *Frame, li *loopInfo, phis []*ssa.Phi, val func(*ssa
 		v := val(ph)
 		if ph.Comment == "rangeindex" {
 			iv := Val{T: fmt.Sprintf("(+ %s 1)", v.T), Typ: types.Typ[types.Int]}
+			out["$idx"] = iv
+			out[fmt.Sprintf("$idx%d", li.ord)] = iv
+			continue
+		}
+		if ph.Comment == "rangeint.iter" {
+			// range over an integer: the number of completed iterations
+			iv := Val{T: v.T, Typ: types.Typ[types.Int]}
 			out["$idx"] = iv
 			out[fmt.Sprintf("$idx%d", li.ord)] = iv
 			continue
@@ -1765,6 +1804,29 @@ func (vc *VC) loopCallMods(fr *Frame, li *loopInfo, x *ssa.Call, add func(comp, 
 	name := vc.calleeName(fr, c)
 	if vc.eng.trackedEvents[name] {
 		add(vc.eventComp(name), "")
+	}
+	// ghost variables assigned by the caller's own `at call` clauses for this callee
+	if fr.spec != nil && name != "" {
+		genv := &SpecEnv{vc: vc, fr: fr, pkg: fnPkg(fr.fn), vars: map[string]Val{}}
+		for _, cs := range fr.spec.Calls {
+			if cs.Callee != name {
+				continue
+			}
+			for _, gl := range [][]GhostSet{cs.Ghost, cs.GhostB} {
+				for _, g := range gl {
+					var gname string
+					switch l := g.LHS.(type) {
+					case *EIdent:
+						gname = l.Name
+					case *EIndex:
+						gname = exprName(l.X)
+					}
+					if comp, gg := vc.ghostComp(genv, gname); gg != nil {
+						add(comp, "")
+					}
+				}
+			}
+		}
 	}
 	var spec *FuncSpec
 	var callee *ssa.Function
